@@ -110,6 +110,8 @@ inductive Cmd where
   | freq (n : Int)
   | pbOnTime (big : Bool) (tri : List Int)
   | vOnTime (tri : List Int)
+  | noteX (semi : Int) (q v tm : Option Int)                   -- a lettered note with its own gate / velocity / timing
+  | noteN (no : Int) (q v tm : Option Int)                      -- a numbered note (no octave / length reservations there)
 
 def clampI (lo v hi : Int) : Int := if v < lo then lo else if v > hi then hi else v
 
@@ -124,7 +126,41 @@ def ccOnNoteStep (start ch : Int) : List CcRes → List Event × List CcRes
       (e :: evs, if r'.index < r'.data.length then r' :: rs else rs)
     else (evs, rs)
 
+/-- the note path of `exec_note` (`lettered = true`) and `exec_note_n` (`false`) with the note's own values `vb qb tb'`
+    (already defaulted to the track's): v.onTime, the onNote/onCycle reservations, the Random draws, the event -/
+def noteWith (t : Trk) (lettered : Bool) (key0 vb qb tb' : Int) : Trk :=
+  let (v0, vTime') := match t.vTime with
+    | none => (vb, t.vTime)
+    | some (start, tri) =>
+      let cur := t.tp - start
+      let r := (vOnTimeAt cur 0 tri).getD vb
+      (r, if totalLen tri ≤ cur then none else t.vTime)
+  let (v1, vS', vcur) := calcOnNote t.vS t.v v0
+  let (t1, tS', tcur) := calcOnNote t.tS t.t tb'
+  let (q1, qS', qcur) := calcOnNote t.qS t.q qb
+  let (oAbs, oS0, ocur) := if lettered then calcOnNote t.oS t.o (-1) else (-1, t.oS, t.o)
+  let oS' := if lettered then (match t.oS.vals with | some [] => { t.oS with vals := none } | _ => oS0) else t.oS
+  let key1 := if oAbs ≠ -1 then key0 % 12 + oAbs * 12 else key0
+  let (key2, s1) := if lettered ∧ t.oR > 0 then (let r := calcRand t.seed 0 t.oR; (if r.1 ≠ 0 then key1 + r.1 * 12 else key1, r.2)) else (key1, t.seed)
+  let (v2, s2) := if t.vR > 0 then calcRand s1 v1 t.vR else (v1, s1)
+  let (t2, s3) := if t.tR > 0 then calcRand s2 t1 t.tR else (t1, s2)
+  let (q2, s4) := if t.qR > 0 then calcRand s3 q1 t.qR else (q1, s3)
+  let (lv, lS0, _) := if lettered then calcOnNote t.lS 0 (-1) else (-1, t.lS, 0)
+  let lS' := if lettered then (match t.lS.vals with | some [] => { t.lS with vals := none } | _ => lS0) else t.lS
+  let len := if lv ≠ -1 then lv else t.l
+  let ev : Event := ⟨.noteOn, t.tp + t2, t.ch, key2, Int.tdiv (len * q2) 100, clampI 0 v2 127, []⟩
+  let (ccs, ccNote') := if lettered then ccOnNoteStep t.tp t.ch t.ccNote else ([], t.ccNote)
+  { t with tp := t.tp + len, v := vcur, q := qcur, t := tcur, o := (if oAbs ≠ -1 then ocur else t.o),
+           vS := vS', qS := qS', tS := tS', oS := oS', lS := lS', vTime := vTime', seed := s4,
+           ccNote := ccNote', ev := t.ev ++ ccs ++ [ev] }
+
 def step (t : Trk) : Cmd → Trk
+  | .noteX semi q v tm =>
+    noteWith t true (t.o * 12 + semi) (match v with | some x => if x < 0 then t.v else x | none => t.v)
+      (match q with | some x => if x = 0 then t.q else x | none => t.q) (tm.getD t.t)
+  | .noteN no q v tm =>
+    noteWith t false no (match v with | some x => if x < 0 then t.v else x | none => t.v)
+      (match q with | some x => if x = 0 then t.q else x | none => t.q) (tm.getD t.t)
   | .note semi =>
     -- v.onTime
     let (v0, vTime') := match t.vTime with
